@@ -228,7 +228,7 @@ for _pid in ("C11", "C12", "C13", "C14"):
         "translators": ["consts"],
         "lean_targets": prop_modules(_pid, extra=("JediVerif.Properties.%sb" % _pid,)),
         "theorems": (lambda _p=_pid: thms(_p, extra=(("JediVerif.Properties.%sb" % _p, "Jedi.%sb" % _p),))),
-        "streams": stream_set([("wkdibe", 4)], ["asm"], ["asm", "portable64", "portable32", "asan"], scale=2),
+        "streams": stream_set([("wkdibe", 4)], ["asm"], ["asm", "portable64", "portable32", "asan", "portable64-O0"], scale=2),
         "hypotheses": ["H-bilinear when the abstract-group theorems are transported to the concrete pairing"],
     }
 PROPS["C11"]["filter"] = lambda l: l.startswith(("wk_setup", "wk_keygen", "wk_qualify", "wk_ndkeygen", "wk_ndqualify", "wk_resample", "wk_decrypt", "wk_encrypt ")) and not l.rstrip().endswith(" ne")
